@@ -66,7 +66,7 @@ pub fn strategy() -> BoxedStrategy<C17Case> {
 }
 
 /// Independent reference decoder: (cause label, has process).
-fn reference(signo: i32, code: i32) -> (&'static str, bool) {
+pub fn reference(signo: i32, code: i32) -> (&'static str, bool) {
     match code {
         c if c == libc::SI_USER => ("Sent(User)", true),
         SI_KERNEL => ("Kernel", false),
@@ -78,7 +78,7 @@ fn reference(signo: i32, code: i32) -> (&'static str, bool) {
     }
 }
 
-fn cause_label(c: &Cause) -> String {
+pub fn cause_label(c: &Cause) -> String {
     match c {
         Cause::Unknown => "Unknown".into(),
         Cause::Kernel => "Kernel".into(),
